@@ -8,7 +8,7 @@ from av.props import simprop
 MANIFEST_ENTRY = {
     "category": "exploration",
     "technique": "offline reference recomputation of every recorded parameter value (per parameter, population and time index) from the ParameterSet, the framework table, the recorded same-step dependency values and the program outcomes, with an independent interpolation routine and an independent expression evaluator; generated models, library models and shipped (corpus) models under perturbation",
-    "text": "For every parameter of every run the expected value is rebuilt: own interpolation of the databook series (exact at entered years, linear between, constant outside, assumption) x population and meta calibration factors; replaced by scale x f(recorded, already-limited same-step dependencies) when a function is defined and the time is outside the scenario skip window (dependencies: compartments, characteristics, parameters, annualised flows, t, dt; cross-population aggregations by the documented weighted sum/average); replaced by the program outcome (converted for number and per-year units) while programs are active and target it; finally clipped to the framework limits. Because dependents are recomputed from recorded dependency values, a dependent that was fed an unclipped, stale or out-of-order value shows up as a mismatch. Transfer parameters and parameter scenarios (linear and stepped, on data and function parameters) are included. Every 8th case is a model shipped with the repository (49 library / fixture framework-databook(-program book) combinations and 18 fixture frameworks with a generated databook: several population types, interactions, derivative parameters, hand-made junction and duration-group layouts) run under perturbation: other step sizes and horizons, calibration factors from mild to hostile, program books switched on at arbitrary years with scaled budgets. The initial compartment sizes are checked against every set-up quantity recomputed with population and all-population calibration factors on denominators and fractions (library and generated cases). A fifth of the generated models contain a chain A -> B -> C below a programme-targeted parameter A (B depends on parameters only and drives nothing itself). Half of the scenarios in models with a population aggregation overwrite the aggregation for one population only. Scenario overwrite points are listed in any order.",
+    "text": "For every parameter of every run the expected value is rebuilt: own interpolation of the databook series (exact at entered years, linear between, constant outside, assumption) x population and meta calibration factors; replaced by scale x f(recorded, already-limited same-step dependencies) when a function is defined and the time is outside the scenario skip window (dependencies: compartments, characteristics, parameters, annualised flows, t, dt; cross-population aggregations by the documented weighted sum/average); replaced by the program outcome (converted for number and per-year units) while programs are active and target it; finally clipped to the framework limits. Because dependents are recomputed from recorded dependency values, a dependent that was fed an unclipped, stale or out-of-order value shows up as a mismatch. Transfer parameters and parameter scenarios (linear and stepped, on data and function parameters) are included. Every 8th case is a model shipped with the repository (49 library / fixture framework-databook(-program book) combinations and 18 fixture frameworks with a generated databook: several population types, interactions, derivative parameters, hand-made junction and duration-group layouts) run under perturbation: other step sizes and horizons, calibration factors from mild to hostile, program books switched on at arbitrary years with scaled budgets. The initial compartment sizes are checked against every set-up quantity recomputed with population and all-population calibration factors on denominators and fractions (library and generated cases). A fifth of the generated models contain a chain A -> B -> C below a programme-targeted parameter A (B depends on parameters only and drives nothing itself). Half of the scenarios in models with a population aggregation overwrite the aggregation for one population only. Scenario overwrite points are listed in any order. A fifth of the cases enter whole-number constants of targeted parameters as Python / numpy integers.",
     "note": "Reported characteristics use the documented 0 below 1e-6 people convention while the integrator divides without the cut-off; when such a characteristic is a dependency the value computed under either convention is accepted. rtol 1e-9 (1e-8 when the function contains **).",
 }
 
